@@ -817,7 +817,7 @@ class Executor:
                     target.fields[str(i)] = target.fields[fn.strip()]
             return a
         # unit variant / unit struct without args
-        if re.match(r"^[\w:<>, &']+$", t):
+        if re.match(r"^[\w:<>, &']+$", t) or re.match(r"^[\w:]+::<[\w:<>, &'()\[\];]*>::\w+$", t):
             return self.const(t)
         raise Unsupported("rvalue: " + t)
 
